@@ -132,6 +132,8 @@ def labels_for(problem):
         labs.append("far-offset-spectrum")
     if problem.get("int_dtype"):
         labs.append("integer-dtype")
+    if problem.get("ulp") and any(len({(problem["energy"][i], problem["eimag"][i]) for i in s_}) < len(s_) for s_ in st_):
+        labs.append("almost-equal-levels")
     if "form" in problem:
         labs.append("form=" + problem["form"])
         if problem["repr"] == "sparse":
